@@ -29,6 +29,20 @@ functions/modules) denote the immutable placeholder LEAF.  Parameters listed in
 SCALAR_PARAMS are documented as numbers/strings/booleans; they are rebound to LEAF on
 entry (an immutable object cannot be modified, `t += dt` rebinds).
 
+Checked, not trusted (harness/c19_tables.py, on every ./check C19): every table entry is called on the installed
+numpy/networkx/scipy/builtins with representative arguments and the concrete heap before/after is compared with what the
+category claims; the statement mapping is tested differentially on translate/effects_corpus/*.py (a function the checker
+accepts must not modify an argument when it is run).  What that validation found and what was changed because of it:
+  a.extend(b) / d.update(b) / x += b / x[i:j] = b / G.add_*_from(b) / nx.set_*_attributes store what b HOLDS (BULK_STORE);
+  y[k] op= v modifies a mutable ELEMENT of y in place; y[3] also reads the value under the key 3 of a dictionary;
+  list/tuple/sorted/reversed/deque of a 2-d array hold row VIEWS (ELEMENT_VIEWS); dict(pairs) / dict(a=p) hold the values;
+  heapq.heappop returns an element; reverse/byteswap/set_integrator/set_initial_value/__iadd__ return (a view of) the receiver;
+  np.sum / np.prod of a Python object and sum(xs, start) may return an argument; np.atleast_1d(x, y) views every argument;
+  copy.copy(G) shares G's storage; out= / copy= / inplace= / as_view= / where= / start= and positional output buffers
+  (np.sqrt(x, out), a.dot(b, out), a.max(axis, out), shift(x, s, out), G.copy(as_view)) are refused; so are unbound method
+  calls (list.append(x, 1)), computed callees (getattr(x, 'append')(1)) and */** in library calls; default values of lambdas /
+  nested functions are held by the function object.
+
 Anything else makes the translator exit non-zero naming the construct and the line."""
 import ast, sys, os, argparse, warnings
 warnings.filterwarnings('ignore')
@@ -679,6 +693,8 @@ class Fun:
         # ---- method-like calls on a local object ---------------------------
         if isinstance(f, ast.Attribute) and not (d and d.split('.')[0] in MODULES and not self.is_local(d.split('.')[0])):
             m = f.attr
+            if isinstance(f.value, ast.Name) and f.value.id in BUILTIN_VALUES and not self.is_local(f.value.id):
+                self.err(c, 'call of the unbound method %s.%s (the receiver is an argument)' % (f.value.id, m))
             if m == 'add' and len(c.args) >= 2:
                 return self.queue_add(out, c)
             if m == 'pop_and_run':
@@ -780,6 +796,10 @@ class Fun:
                 return self.LEAF
             self.err(c, 'library function %s is in no table' % d)
         # ---- callbacks: calling a local variable / parameter / closure ------
+        if not isinstance(f, (ast.Name, ast.Lambda)):
+            # getattr(x, 'append')(1), handlers[k](x), make()(x): the callee is computed; only a named user
+            # callback (assumed not to modify its arguments) or a literal lambda is accepted
+            self.err(c, 'call of a computed callee (%s)' % type(f).__name__)
         fv = self.expr(out, f)
         args = self.call_args(out, c)
         return self.opaque(out, [fv] + args)
@@ -1260,6 +1280,9 @@ def main():
     L.append('   SCALAR_PARAMS (rebound to the immutable placeholder on entry): %s' % ' '.join(sorted(SCALAR_PARAMS)))
     L.append('   MUTATING_METHODS: %s' % ' '.join(sorted(MUTATING_METHODS)))
     L.append('   MUTATING_FUNCS: %s' % ' '.join(sorted(MUTATING_FUNCS)))
+    L.append('   BULK_STORE (store everything reachable from the arguments): %s' % ' '.join(sorted(BULK_STORE)))
+    L.append('   REFUSED_KEYWORDS of library calls: %s;  MAX_POSITIONAL: %s' % (' '.join(sorted(REFUSED_KEYWORDS)), ' '.join('%s<=%d' % kv for kv in sorted(MAX_POSITIONAL.items()))))
+    L.append('   (every table entry is validated against the installed libraries on every run by harness/c19_tables.py)')
     L.append('   queue handlers: %s' % ' '.join(handlers))
     for n in mod.notes:
         L.append('   note: %s' % n.replace('*)', '* )'))
